@@ -115,6 +115,19 @@ CLAIMED = {
         note="Trusted: TLC; census = sizes of all trait / container / object notifier lists of the pool; failures "
              "injected through one object of a class lacking the observed trait; gc.collect() forced explicitly.",
         design="4/C09"),
+    "C10": dict(
+        technique=TLA + "Defaults.tla specifies each operation's effect on the ACTOR's view only; DefaultsMC checks "
+                  "non-interference as an action property over all histories to the bound; in conformance the "
+                  "side-effect-free views of all instances and of the classes are recorded after every step of seeded "
+                  "histories and TLC judges that only the actor's view changed, and as specified",
+        text="14 default kinds (constant, overridden constant, comparison-mode-none, List/Dict/Set objects, list/dict "
+             "copies via Any, callable-and-args factory, _name_default methods with run counters, Tuple and Union with "
+             "container members) x 3 instances (one of an overriding subclass, created during the history) x read / "
+             "in-place mutation / assign / delete / handler registration / add_trait with a shared trait object; identity "
+             "sharing of mutable defaults between instances or with the class default is checked on every state.",
+        note="Trusted: TLC; views are projected from __dict__, run counters and handler logs (never by reading "
+             "attributes). Known finding F12 (class-level caching of resolved names).",
+        design="4/C10"),
     "C12": dict(
         technique=TLA + "Observe.tla: an observed property is a permanent registration of its dependency expression; "
                   "PropValue computes its value from the heap, Relevant decides which mutations concern it; every read of "
